@@ -266,12 +266,22 @@ func (ni *NodeInterface) GetSentMessageByName(name string) (*Message, error) {
 	return msg, nil
 }
 
+// compareMessages orders messages by id; a message with a static CAN-ID may share
+// its id with another message, so ties are broken by name and then by entity id.
+func compareMessages(a, b *Message) int {
+	if a.id != b.id {
+		return int(a.id) - int(b.id)
+	}
+	if c := strings.Compare(a.name, b.name); c != 0 {
+		return c
+	}
+	return strings.Compare(a.entityID.String(), b.entityID.String())
+}
+
 // SentMessages returns a slice of messages sent by the [NodeInterface].
 func (ni *NodeInterface) SentMessages() []*Message {
 	msgSlice := ni.sentMessages.getValues()
-	slices.SortFunc(msgSlice, func(a, b *Message) int {
-		return int(a.id) - int(b.id)
-	})
+	slices.SortFunc(msgSlice, compareMessages)
 	return msgSlice
 }
 
@@ -329,9 +339,7 @@ func (ni *NodeInterface) RemoveAllReceivedMessages() {
 // ReceivedMessages returns a slice of messages received by the [NodeInterface].
 func (ni *NodeInterface) ReceivedMessages() []*Message {
 	msgSlice := ni.receivedMessages.getValues()
-	slices.SortFunc(msgSlice, func(a, b *Message) int {
-		return int(a.id) - int(b.id)
-	})
+	slices.SortFunc(msgSlice, compareMessages)
 	return msgSlice
 }
 
